@@ -5,7 +5,8 @@ import operator_common as O
 
 def run(res, tier, seed):
     res.trusted_base += [
-        'hand-written model coq/theories/StencilDefs.v (A_take_row, rhs_weight) tied by the K-matrix of C03',
+        'hand-written model coq/theories/StencilDefs.v (A_take_row, rhs_weight) tied by the K-matrix of C03 and by K-rhs: the private '
+        'GMGPolar::discretize_rhs_f applied to a vector of ones on every sampled level with cached geometry, compared with rhs_weight node by node',
         'axioms under the R theorems: ClassicalDedekindReals.sig_forall_dec, sig_not_dec, FunctionalExtensionality.functional_extensionality_dep',
     ]
     res.assumptions += [
@@ -20,6 +21,15 @@ def run(res, tier, seed):
     if not out:
         return
     impl, dis, levels = out
+    res.coverage['rhs_weight_vectors_compared'] = sum(1 for l in impl.split('\n') if l.startswith('RHSW'))
+    for d in dis:
+        if d.get('kind') == 'value' and d['query'].startswith('RHSW'):
+            res.violation('rhs-weight-differs', {
+                'what': 'GMGPolar::discretize_rhs_f multiplies the sampled source term with a weight that differs from the mass weight of the model '
+                        '(C02_rhs_weight_is_mass_weight): the discrete right-hand side is not consistent with the operator',
+                'verdict': d['model'][:300], 'grid': d.get('context', {}).get('OGRID', '')[:1000], 'seed': seed,
+                'replay_cmd': 'VERIF_SEED=%d VERIF_TIER=%s /verif/check C02' % (seed, tier)})
+            break
     if dis:
         O.first_row_violation(res, dis, 'operator-row-differs',
                               'the operator differs from the model the C02 identities are about', seed, tier)
